@@ -50,15 +50,21 @@ def _events(args):
                         frames = list(_consistent_frames(cds, st, rnd.choice([0, 1, 2])))
                     obj = mk_tx(blocks, st, cds, root, frames=frames, parent=par, transcript_symbol="sym1",
                                 sequence_name="chr")
-                    nm = rnd.choice(["transcript_symbol", "literal name", "transcript_id"])
-                    want = {"transcript_symbol": "sym1", "literal name": "literal name", "transcript_id": "None"}[nm]
+                    # the name column: an attribute of the interval (data attributes and the shared id / name / guid
+                    # accessors alike) or, when there is no such attribute, the text itself
+                    nm = rnd.choice(["transcript_symbol", "literal name", "transcript_id", "name", "id", "guid", "strand"])
+                    want = {"transcript_symbol": "sym1", "literal name": "literal name", "transcript_id": "None",
+                            "name": "sym1", "id": "None", "guid": None, "strand": None}[nm]
                 else:
                     if cds:
                         continue
                     obj = FeatureInterval([b[0] for b in blocks], [b[1] for b in blocks], Strand.from_symbol(st),
                                           feature_name="fn", sequence_name="chr",
                                           parent_or_seq_chunk_parent=par if par else None)
-                    nm, want = rnd.choice([("feature_name", "fn"), ("xyz", "xyz")])
+                    nm, want = rnd.choice([("feature_name", "fn"), ("xyz", "xyz"), ("name", "fn"), ("id", "None"),
+                                           ("guid", None)])
+                if want is None:
+                    want = str(getattr(obj, nm))  # read before the export
                 if rnd.random() < 0.25:
                     E.warm(obj)  # an interval that was already asked everything else
                 o = E.outcome(lambda: read_bed12(str(obj.to_bed12(name=nm, chromosome_relative_coordinates=w is None))))
